@@ -107,7 +107,14 @@ pub fn run(args: &Args) {
                     if prior {
                         p.set_revisions_algorithm_name("SHA-256").set_revisions_salt_value("b2xkLXNhbHQtb2xkLXNhbHQ=").set_revisions_hash_value("b2xkLWhhc2g=").set_revisions_spin_count(prior_spin);
                     }
+                    // a third of the records also get a workbook password before and another one after: the two kinds share the record
+                    if k % 3 == 2 {
+                        p.set_workbook_password("first-workbook-password");
+                    }
                     p.set_revisions_password(&password);
+                    if k % 3 == 2 {
+                        p.set_workbook_password("second-workbook-password");
+                    }
                     if twice {
                         first_salt = p.get_revisions_salt_value().to_string();
                         p.set_revisions_password(&password);
